@@ -28,3 +28,13 @@ Definition pack_H (v : Z) := pack_be 2 v EStruct.
 Definition to_bytes (n : nat) (v : Z) := pack_be n v EOverflow.
 
 Definition nat_of_Z (z : Z) : nat := Z.to_nat z.
+
+(* ---- primitives the function translator (tools/symtrans.py) prints ------------------------------------------ *)
+(* int.bit_length() *)
+Definition py_bit_length (v : Z) : Z := if v =? 0 then 0 else Z.log2 (Z.abs v) + 1.
+(* math.ceil(a / k) for a positive constant k (exact below 2^53: bit lengths and sizes) *)
+Definition py_ceil_div (a k : Z) : Z := - ((- a) / k).
+(* `key in table` / `table[key]` for a class-level dict with integer keys and values (the lookup is guarded by the membership test) *)
+Definition py_dict_mem (t : list (Z * Z)) (k : Z) : bool := existsb (fun '(a, _) => a =? k) t.
+Definition py_dict_get (t : list (Z * Z)) (k : Z) : Z :=
+  match find (fun '(a, _) => a =? k) t with Some (_, v) => v | None => 0 end.
